@@ -23,7 +23,8 @@ RULE = ('histories over {add / remove / reset plugin (3 plugins x 2 scopes, also
         'exactly the active plugins (once per triggering instruction) and reaches exactly the active contracts; '
         'add_contract accepts an object <=> it satisfies an active interface; compile results are a function of (source, '
         'active aliases) only; caller dicts are deep-equal to their pre-call copies. non-trivial = a remove or reset '
-        'after >= 2 adds, or a compile after another compile; distinct by the operation word.')
+        'after >= 2 adds, or a compile after another compile; distinct by the operation word.'
+        ' Plugins: plain function, bound method fetched afresh per call, a run-once plugin that removes itself, all consuming the template arguments like ops; run variants: run_script / run_auth_scripts, caller overrides, probe as second script, caller-supplied timestamp; aliases of an ordinary op and of OP_IF; sources with the same macro / variable names and different bodies.')
 ASSUMPTIONS = ['registries are restored in place (and leaked default-argument state cleared) between histories',
                'expected bytes of the fixed sources are cross-checked against the reference assembler once per worker']
 
